@@ -221,7 +221,7 @@ fn c11_cases(thorough: bool, incroot: &str) -> Vec<C11Case> {
     for (path, text) in crate::crashmc::shipped_seeds(if thorough { 8000 } else { 1200 }, if thorough { 150 } else { 16 }) {
         let dir = std::path::Path::new(&path).parent().map(|p| p.to_string_lossy().to_string()).unwrap_or_default();
         let sigil = detect_dialect(&text).map(|d| d.stepping.is_some()).unwrap_or(false);
-        out.push(C11Case { text, search: vec![dir, "/repo/resources/tests".into(), "/repo/resources/tests/bridge-includes".into(), "/repo/resources/tests/strict/includes".into(), "/repo/resources/tests/lib".into()], sigil, args_text: "()".to_string(), tag: "shipped".to_string() });
+        out.push(C11Case { text, search: std::iter::once(dir).chain(crate::subject::repo_search_paths()).collect(), sigil, args_text: "()".to_string(), tag: "shipped".to_string() });
     }
     out
 }
